@@ -265,14 +265,24 @@ class C14(Prop):
                         doms.append(bvals(ks) if len(fs) <= 1 else bvals(sks))
                 rev = {v: k for k, v in std4.OP_CLASS.items()}
                 for combo in itertools.product(*doms):
+                    # one object per operand combination, asked for every byte order and pointer size in turn: what it answers must not
+                    # depend on what it was asked before
+                    try:
+                        real = [[getattr(expr, rev[nm])(*a) for nm, a in x] if isinstance(x, list) else x for x in combo]
+                        obj = cls(*real)
+                    except ValueError:
+                        obj = None
+                    except Exception as e:  # noqa
+                        bad("construction raises something other than ValueError", [cls.__name__, repr(combo)], observed=type(e).__name__)
+                        continue
                     for big in (False, True):
                         for ps in (4, 8):
                             n += 1
                             bo = "big" if big else "little"
                             exp = std4.std_encode(table, std, list(combo), big, ps)
                             try:
-                                real = [[getattr(expr, rev[nm])(*a) for nm, a in x] if isinstance(x, list) else x for x in combo]
-                                obj = cls(*real)
+                                if obj is None:
+                                    raise ValueError("refused at construction")
                                 got = bytes(obj.encode(bo, ps))
                             except ValueError:
                                 got = None
